@@ -128,6 +128,51 @@ fn exotic_module_x(src: &mut Src, max_depth: usize) -> String {
     s
 }
 
+const M_TYPES: [&str; 30] = [
+    "INTEGER", "INTEGER { a(1), b(2) }", "INTEGER (0..255)", "BOOLEAN", "NULL", "BIT STRING", "BIT STRING { a(0), b(3) }", "OCTET STRING", "IA5String",
+    "UTF8String", "BMPString", "NumericString", "OBJECT IDENTIFIER", "RELATIVE-OID", "ENUMERATED { a, b, c }", "ENUMERATED { a(1), ..., b(5) }",
+    "SEQUENCE { a INTEGER, b BOOLEAN OPTIONAL }", "SEQUENCE { }", "SET { a INTEGER }", "SEQUENCE OF INTEGER", "SET OF BOOLEAN", "CHOICE { a INTEGER, b NULL }",
+    "REAL", "GeneralizedTime", "UTCTime", "ANY", "Cyc-A", "Cyc-B", "Undefined-Type", "SEQUENCE OF SEQUENCE { a Cyc-A }",
+];
+
+const M_VALUES: [&str; 40] = [
+    "5", "-5", "0", "99999999999999999999999999999999999999999", "-170141183460469231731687303715884105729", "TRUE", "FALSE", "NULL", "\"str\"", "\"\"",
+    "\"a\"\"b\"", "'0101'B", "'AF'H", "''H", "''B", "'A'H", "'101'B", "{ a }", "{ a, b }", "{ }", "{ 1 2 3 }", "{ iso standard 1 }", "{ a 1, b TRUE }",
+    "{ a 1 }", "{ 1, 2 }", "{ { a 1 } }", "a:5", "b:NULL", "a:a:5", "a", "b", "w", "v0", "cyc-a", "1.5", "{ mantissa 1, base 2, exponent 3 }", "PLUS-INFINITY",
+    "MIN", "\"20200101120000Z\"", "undefined-value",
+];
+
+const M_CONS: [&str; 34] = [
+    "(0..5)", "(5..1)", "(MIN..MAX)", "(0..w)", "(w..v0)", "(a..b)", "(1 | 2 | a)", "(ALL EXCEPT 1)", "(0..5, ...)", "(0..5, ..., 7)", "(SIZE (1..4))", "(SIZE (0))",
+    "(SIZE (-1))", "(SIZE (MIN..MAX))", "(SIZE (w))", "(SIZE (\"a\"))", "(SIZE (1..4) ^ FROM (\"a\"..\"f\"))", "(FROM (\"a\"..\"z\"))", "(FROM (\"\"..\"z\"))",
+    "(FROM (\"a\"..\"\"))", "(FROM (\"z\"..\"a\"))", "(FROM (\"\"))", "(FROM (\"ab\"..\"cd\"))", "(FROM (\"\u{2603}\"..\"\u{1f600}\"))", "(\"a\")", "(\"\")",
+    "(INCLUDES Cyc-A)", "(Undefined-Type)", "(PATTERN \"x\")", "(CONTAINING Cyc-A)", "(WITH COMPONENTS { a (1) })", "(WITH COMPONENT (0..1))", "(TRUE)", "({ a })",
+];
+
+/// well-formed assignments that pair every kind of type with every kind of value and constraint,
+/// matching or not: exercises the linker's and generators' error paths rather than the lexer's
+fn mismatch_module(src: &mut Src) -> String {
+    let mut s = header(src, "Mismatch-Mod");
+    s.push('\n');
+    s.push_str("Cyc-A ::= Cyc-B\nCyc-B ::= Cyc-A\nw INTEGER ::= 1\ncyc-a INTEGER ::= cyc-b\ncyc-b INTEGER ::= cyc-a\n");
+    let n = 1 + src.pick(8);
+    for i in 0..n {
+        let ty = M_TYPES[src.pick(M_TYPES.len())];
+        let con = if src.chance(50) { M_CONS[src.pick(M_CONS.len())] } else { "" };
+        let val = M_VALUES[src.pick(M_VALUES.len())];
+        match src.pick(6) {
+            0 => s.push_str(&format!("Ty{i} ::= {ty} {con}\n")),
+            1 => s.push_str(&format!("v{i} {ty} {con} ::= {val}\n")),
+            2 => s.push_str(&format!("Ty{i} ::= {ty} {con}\nv{i} Ty{i} ::= {val}\n")),
+            3 => s.push_str(&format!("Ty{i} ::= SEQUENCE {{ f {ty} {con} DEFAULT {val}, g Cyc-A OPTIONAL }}\n")),
+            4 => s.push_str(&format!("Ty{i} ::= {ty}\nAl{i} ::= Ty{i} {con}\nv{i} Al{i} ::= {val}\nx{i} Al{i} ::= v{i}\n")),
+            _ => s.push_str(&format!("Ty{i} ::= SEQUENCE OF {ty} {con}\nv{i} Ty{i} ::= {{ {val}, {val} }}\n")),
+        }
+    }
+    s.push_str("END\n");
+    s
+}
+
 fn soup(src: &mut Src) -> String {
     let n = src.pick(60);
     let mut s = String::new();
@@ -257,7 +302,7 @@ fn make_jobs(seed: u64, n: usize, reals: &[(String, String)]) -> Vec<Job> {
         .enumerate()
         .map(|(i, s)| {
             let mut src = Src::new(s);
-            let class = src.weighted(&[2, 3, 3, 3, 2, 1, 2]);
+            let class = src.weighted(&[2, 3, 3, 3, 2, 1, 2, 3]);
             // skip a few numbers so that the inner generators do not mirror the class choice
             for _ in 0..3 {
                 src.raw();
@@ -287,6 +332,7 @@ fn make_jobs(seed: u64, n: usize, reals: &[(String, String)]) -> Vec<Job> {
                     Job { class: "mutated-generated", text: mutate(&mut src, &a, &b) }
                 }
                 4 => Job { class: "exotic", text: exotic_module(&mut src) },
+                7 => Job { class: "type-value-mismatch", text: mismatch_module(&mut src) },
                 5 => {
                     // (malformed input nested deeper than ~25 levels takes exponential time: finding
                     // F-exp-backtrack, confirmed from its repro; mutants stay shallow so that the
@@ -361,7 +407,8 @@ pub fn run(tier: Tier, seed: u64, replay: Option<String>) -> i32 {
     ctx.rule = "inputs: byte/token soup, prefixes of valid modules (generated and real-world), token-level mutations (delete, insert, replace, duplicate, swap, \
                 splice) of real-world, generated and exotic-notation modules, modules composed from a library of every notation the lexer parses (classes, objects, \
                 object sets, parameterization, selection, COMPONENTS OF, TIME, REAL, EXTERNAL, MACRO, PATTERN/CONTAINING/WITH COMPONENTS, cyclic aliases / values / \
-                object sets, deep nesting), inputs cut inside comments/strings at EOF, multi-byte characters at token boundaries; each is compiled in an isolated worker \
+                object sets, deep nesting), well-formed modules pairing 30 type notations with 40 value notations and 34 constraints whether they fit or not \
+                (as assignment, via alias, as DEFAULT, as SEQUENCE OF elements; with cyclic aliases and cyclic values in scope), inputs cut inside comments/strings at EOF, multi-byte characters at token boundaries; each is compiled in an isolated worker \
                 (8 MiB stack) with the rasn backend (default and non-opaque open types) and the TypeScript backend, and every error and warning is rendered with Display \
                 and contextualize; a panic, a dead worker (abort / stack exhaustion) or a confirmed timeout is a violation; non-trivial = the lexer got past the module \
                 header (input contains `BEGIN` followed by at least one `::=`); distinct by input text"
